@@ -40,7 +40,10 @@ VARIABLES mpc,          \* input thread: "idle" | "stopwait" | "nglock" | "exite
 
 vars == <<mpc, control, latch, mutex, th, nextSlot, outstanding, hashZero, crashed, ncmd, lbl>>
 
-Slots == 1..2
+\* Three thread records: the latch step of a search that has already printed its move may lag behind later
+\* searches (nothing orders it any more once the state is released before the move is announced); the model
+\* lets it lag by at most two later searches (a `go' needs the third-last search to have finished entirely).
+Slots == 1..3
 Free == [st |-> "free", flag |-> FALSE, finite |-> TRUE]
 
 Init ==
@@ -57,14 +60,13 @@ S(s, w) == lbl' = <<"S", s, w>>
 (***************************************************************************)
 (* Input thread                                                            *)
 (***************************************************************************)
-\* go: new time strategy and stop handle, thread spawned.  The thread's slot must be free:
-\* under the protocol the search before last has always exited.
+\* go: new time strategy and stop handle, thread spawned.  The thread's record must be free (see Slots).
 Go(fin) ==
     /\ MayCommand /\ outstanding = 0
     /\ th[nextSlot].st = "free"
     /\ th' = [th EXCEPT ![nextSlot] = [st |-> "spawned", flag |-> FALSE, finite |-> fin]]
     /\ control' = nextSlot
-    /\ nextSlot' = 3 - nextSlot
+    /\ nextSlot' = (nextSlot % 3) + 1
     /\ outstanding' = 1
     /\ latch' = IF ResetOnGo THEN FALSE ELSE latch
     /\ M(IF fin THEN "go" ELSE "goinf") /\ Count
@@ -135,30 +137,32 @@ SLock(s) ==
     /\ S(s, "lock")
     /\ UNCHANGED <<mpc, control, latch, nextSlot, outstanding, hashZero, ncmd>>
 
-\* The search returns (limit reached, or flag seen) and bestmove is printed.
-SFinish(s) ==
+\* The search returns (limit reached, or flag seen) and releases the search state ...
+SExit(s) ==
     /\ mpc # "exited"
     /\ th[s].st = "searching" /\ (th[s].finite \/ th[s].flag)
+    /\ mutex' = 0
+    /\ th' = [th EXCEPT ![s].st = "released"]
+    /\ S(s, "exit")
+    /\ UNCHANGED <<mpc, control, latch, nextSlot, outstanding, hashZero, crashed, ncmd>>
+
+\* ... then bestmove is printed ...
+SFinish(s) ==
+    /\ mpc # "exited"
+    /\ th[s].st = "released"
     /\ th' = [th EXCEPT ![s].st = "printed"]
     /\ outstanding' = outstanding - 1
     /\ S(s, "finish")
     /\ UNCHANGED <<mpc, control, latch, mutex, nextSlot, hashZero, crashed, ncmd>>
 
+\* ... then the latch is set and the thread is gone.
 SLatch(s) ==
     /\ mpc # "exited"
     /\ th[s].st = "printed"
     /\ latch' = TRUE
-    /\ th' = [th EXCEPT ![s].st = "latched"]
+    /\ th' = [th EXCEPT ![s] = Free]
     /\ S(s, "latch")
     /\ UNCHANGED <<mpc, control, mutex, nextSlot, outstanding, hashZero, crashed, ncmd>>
-
-SExit(s) ==
-    /\ mpc # "exited"
-    /\ th[s].st = "latched"
-    /\ mutex' = 0
-    /\ th' = [th EXCEPT ![s] = Free]
-    /\ S(s, "exit")
-    /\ UNCHANGED <<mpc, control, latch, nextSlot, outstanding, hashZero, crashed, ncmd>>
 
 Thread(s) == SLock(s) \/ SFinish(s) \/ SLatch(s) \/ SExit(s)
 
@@ -181,25 +185,26 @@ Spec == Init /\ [][Next]_vars /\ Fairness
 (***************************************************************************)
 TypeOK ==
     /\ mpc \in {"idle", "stopwait", "nglock", "exited"}
-    /\ control \in 0..2 /\ mutex \in 0..2 /\ outstanding \in 0..1
-    /\ \A s \in Slots : th[s].st \in {"free", "spawned", "searching", "printed", "latched"}
+    /\ control \in 0..3 /\ mutex \in 0..3 /\ outstanding \in 0..1
+    /\ \A s \in Slots : th[s].st \in {"free", "spawned", "searching", "released", "printed"}
 
 \* The mutex is held exactly by a thread between lock and exit.
-MutexOwner == \A s \in Slots : (mutex = s) <=> th[s].st \in {"searching", "printed", "latched"}
+MutexOwner == \A s \in Slots : (mutex = s) <=> th[s].st = "searching"
 
 \* exactly one bestmove per go: the counter never goes negative and a thread prints once
-OneBestmovePerGo == outstanding = Cardinality({s \in Slots : th[s].st \in {"spawned", "searching"}})
+OneBestmovePerGo == outstanding = Cardinality({s \in Slots : th[s].st \in {"spawned", "searching", "released"}})
 
 NoCrash == ~crashed
 
-\* Under the protocol the slot of the next search is always free again.
-GoSlotFree == (mpc = "idle" /\ outstanding = 0) => th[nextSlot].st = "free"
+\* When the GUI may send the next go, at most the two previous searches still have their latch step pending.
+GoSlotFree == (mpc = "idle" /\ outstanding = 0) => \A s \in Slots : th[s].st \in {"free", "printed"}
 
 \* A blocked command always returns.
 MainReturns == (mpc \in {"stopwait", "nglock"}) ~> (mpc \in {"idle", "exited"})
 
 \* A go is answered once its limit can be reached or a stop has been sent for it.
-Answerable == \E s \in Slots : th[s].st \in {"spawned", "searching"} /\ (th[s].finite \/ th[s].flag)
+Answerable == \E s \in Slots : (th[s].st \in {"spawned", "searching"} /\ (th[s].finite \/ th[s].flag))
+                                \/ (th[s].st = "released")
 GoAnswered == (Answerable /\ mpc # "exited") ~> (outstanding = 0 \/ mpc = "exited")
 
 \* No state in which the input thread is blocked and no thread step can ever unblock it
